@@ -1,5 +1,28 @@
 """Property -> machinery."""
 PROPS = {
+    "C01": {
+        "x": [],
+        "extra": ["harness.pC01.run"],
+        "engines": ["engine-t"],
+        "engine": "engine-t",
+        "level": "translation_validation",
+        "explanation": "Engine T: every program of the generated families F1-F4 is compiled from text by the real "
+                       "ExplorerScriptSsbCompiler; per routine, z3 decides trace equivalence between the SSB machine "
+                       "model of the compiled ops and the reference semantics of the source for ALL outcome sequences "
+                       "of all tests (Q1 unsat) with a completeness-threshold query (Q2 unsat: no loop-free product "
+                       "path of length K). The program dimension is enumerated (exhaustive construct family + seeded "
+                       "random nesting), the behavioural quantifier is solver-decided.",
+        "technique": "z3 bounded model checking of trace equivalence (compiled ops vs reference semantics) with "
+                     "completeness threshold, per generated program",
+        "level_text": "Translation validation per program: for each compiled routine the solver proves equality of "
+                      "operation/test sequences for every outcome of every test at any path length. Programs outside "
+                      "the families are not covered.",
+        "level_note": "Trusted: spec/es_sem.py (my reading of docs/language_spec.rst), spec/ssb_machine.py (the machine "
+                      "of the C01 statement), z3. Programs are enumerated, not symbolic (ANTLR cannot be executed "
+                      "symbolically).",
+        "assumptions": ["program dimension enumerated (families F1-F4), behaviour solver-decided",
+                        "ops spelled with reserved opcode names are outside the claim"],
+    },
     "C17": {
         "x": [],
         "extra": ["harness.pC17.run"],
@@ -24,7 +47,7 @@ PROPS = {
     },
     "C04": {
         "x": ["harness.hC04"],
-        "extra": [],
+        "extra": ["harness.pC04.validate_tokens"],
         "level": "other",
         "explanation": "Engine X: CrossHair+z3 symbolic execution of the real printers (repr_string, "
                        "SsbOpParamLanguageString/ConstString/FixedPoint/PositionMarker.__str__, the simple-op write "
